@@ -2403,6 +2403,133 @@ func (r *vpRun) reentrant(rng *rand.Rand) {
 	r.emit("p verdict", "ok")
 }
 
+// midCreation: the owner (a parent scope, or the provider) is closed while a scope is being created from it,
+// at the one point where the container calls user code during creation: inside a scoped initializer.
+// Deterministic (channels), monitors only: CreateScope then reports the disposed error, and whatever the
+// initializers created for the refused scope has been closed exactly once (C10, C13, C14).
+type vmD struct {
+	scope  string
+	closes atomic.Int32
+}
+
+func (d *vmD) Close() error { d.closes.Add(1); return nil }
+
+func (r *vpRun) midCreation(rng *rand.Rand) {
+	w := r.newWorld(rng)
+	viaProvider := rng.Intn(2) == 0
+	var mu sync.Mutex
+	var made []*vmD
+	entered := make(chan struct{}, 8)
+	release := make(chan struct{})
+	armed := atomic.Bool{}
+	c := w.coll
+	if err := c.AddScoped(func(sc Scope) *vmD {
+		d := &vmD{scope: sc.ID()}
+		mu.Lock()
+		made = append(made, d)
+		mu.Unlock()
+		return d
+	}); err != nil {
+		w.fail("C17", "mid-creation scenario: %v", err)
+	}
+	if err := c.AddScoped(func(_ *vmD) {
+		if armed.Load() {
+			entered <- struct{}{}
+			<-release
+		}
+	}); err != nil {
+		w.fail("C17", "mid-creation scenario: %v", err)
+	}
+	var prov Provider
+	var err error
+	if guard(w, "Build", func() { prov, err = c.Build() }) || err != nil {
+		w.fail("C08", "mid-creation scenario: Build failed: %v", err)
+		r.emit("p verdict", "ok")
+		return
+	}
+	r.stats["mid_creation"]++
+	var owner interface {
+		CreateScope(context.Context) (Scope, error)
+		Close() error
+	} = prov
+	if !viaProvider {
+		p, e := prov.CreateScope(nil)
+		if e != nil {
+			w.fail("C08", "mid-creation scenario: CreateScope failed: %v", e)
+			r.emit("p verdict", "ok")
+			return
+		}
+		owner = p
+	}
+	armed.Store(true)
+	type res struct {
+		sc  Scope
+		err error
+	}
+	done := make(chan res, 1)
+	go func() {
+		defer func() {
+			if p := recover(); p != nil {
+				done <- res{nil, fmt.Errorf("panic: %v", p)}
+			}
+		}()
+		sc, e := owner.CreateScope(context.Background())
+		done <- res{sc, e}
+	}()
+	select {
+	case <-entered:
+	case <-time.After(10 * time.Second):
+		w.fail("C13", "mid-creation scenario: the initializer of the new scope never ran")
+		close(release)
+		r.emit("p verdict", "ok")
+		return
+	}
+	closed := make(chan error, 1)
+	go func() { closed <- owner.Close() }()
+	ownerClosed := false
+	select {
+	case <-closed:
+		ownerClosed = true
+	case <-time.After(500 * time.Millisecond):
+		// the owner's Close may legitimately wait for the creation: let the initializer go on
+	}
+	armed.Store(false)
+	close(release)
+	var got res
+	select {
+	case got = <-done:
+	case <-time.After(10 * time.Second):
+		w.fail("C09,C13", "CreateScope overlapping the owner's Close never returned")
+		r.emit("p verdict", "ok")
+		return
+	}
+	if !ownerClosed {
+		select {
+		case <-closed:
+		case <-time.After(10 * time.Second):
+			w.fail("C09,C12,C13", "the owner's Close overlapping a scope creation never returned")
+		}
+	}
+	if got.err == nil && got.sc != nil {
+		// accepted: then it is a live scope of a closed owner only if the owner's Close closed it
+		if _, e := got.sc.Get(scopeType); e == nil {
+			w.fail("C13", "CreateScope overlapping the owner's Close returned a scope that is still usable after that Close returned")
+		}
+	} else if got.err != nil && !errors.Is(got.err, ErrScopeDisposed) && !errors.Is(got.err, ErrProviderDisposed) {
+		w.fail("C13,C15", "CreateScope overlapping the owner's Close returned %v (want the disposed error)", got.err)
+	}
+	prov.Close()
+	time.Sleep(20 * time.Millisecond) // cancellation watchers
+	mu.Lock()
+	for _, d := range made {
+		if n := d.closes.Load(); n != 1 {
+			w.fail("C10,C14", "the disposable created by the initializer of scope %s (its creation overlapped the owner's Close, CreateScope returned err=%v) was closed %d times", d.scope, got.err, n)
+		}
+	}
+	mu.Unlock()
+	r.emit("p verdict", "ok")
+}
+
 // oddShapes: dependency shapes the generic generator cannot build with reflect.StructOf / MakeFunc — a
 // parameter object with an EMBEDDED dependency field, and a plain (ungrouped) dependency of slice type.
 // Monitors only (a test of these shapes, not a proof): Build's verdict against the reference verdict of the
@@ -2552,6 +2679,10 @@ func TestVerifCore(t *testing.T) {
 		}
 		if it%50 == 37 {
 			r.oddShapes(rng)
+			continue
+		}
+		if it%50 == 41 {
+			r.midCreation(rng)
 			continue
 		}
 		r.scenario(rng, o)
